@@ -18,6 +18,7 @@ structure Style where
   hexSep : List Nat := ConstsC05.styleHexSep
   b64Chunk : Nat := ConstsC05.styleB64Chunk
   b64Sep : List Nat := ConstsC05.styleB64Sep
+  txtUtf8 : Bool := false
   deriving Repr
 
 /-- arguments of `from_text` -/
@@ -102,7 +103,8 @@ def printTail (st : Style) : TK → Option FV → Option (List Text)
   | .none, none => some []
   | .hex, some (.b d) => some [wordbreak (hexlify d) st.hexChunk st.hexSep]
   | .b64 fixed0, some (.b d) => some [wordbreak (b64Encode d) (if fixed0 then 0 else st.b64Chunk) st.b64Sep]
-  | .txt, some (.bl ss) => some [joinSep [32] (ss.map fun s => quote (escapifyR s))]
+  | .txt, some (.bl ss) =>
+    some [joinSep [32] (ss.map fun s => quote (txtElement st.txtUtf8 ConstsC05.unicodeEscaped Consts.rdataEscaped s))]
   | .optCstr, some (.b s) => some (if s = [] then [] else [quote (escapifyR s)])
   | _, _ => none
 
